@@ -1,18 +1,19 @@
 import Tea.Runtime.Lifecycle
 /-
 Helper lemmas about the Lifecycle LTS (Tea/Runtime/Lifecycle.lean) for C04 and C13:
-an induction principle over `Reachable`, the invariants (context cancellation,
-renderer stop handshake, Run's error), stability facts, and list lemmas used by the rank.
+an induction principle over `Reachable` (base case: Run has just been entered, `init0`), the
+fault-free start-up, the invariants (context cancellation, the shape of the start-up, the renderer's
+listen goroutine, Run's error), stability facts, and list lemmas used by the rank.
 -/
 namespace Tea.Runtime.Life
 
 /-- induction over reachable states -/
 theorem reachable_induct {c : Config} (Inv : St → Prop)
-    (h0 : Inv (init c))
+    (h0 : Inv (init0 c))
     (hstep : ∀ s s' l, Reachable c s → Inv s → step s l = some s' → Inv s')
     {s : St} (hr : Reachable c s) : Inv s := by
   induction hr with
-  | init => exact h0
+  | init0 => exact h0
   | step l hr hs ih => exact hstep _ _ l hr ih hs
 
 /-- running a label list from a reachable state stays reachable -/
@@ -25,6 +26,15 @@ theorem reachable_runLabels {c : Config} {s s' : St} (ls : List Label)
     split at h
     · rename_i s1 h1; exact ih (Reachable.step l hr h1) h
     · cases h
+
+/-- the fault-free start-up leads from Run's entry to the state in which the loop begins -/
+theorem startup_reaches_loop (c : Config) : runLabels (init0 c) startupSchedule = some (init c) := by
+  simp [startupSchedule, runLabels, step, init0, init]
+
+/-- the state in which the loop begins is reachable: every reachability fact of the model that
+started at the loop is a special case -/
+theorem Reachable.init {c : Config} : Reachable c (init c) :=
+  reachable_runLabels startupSchedule Reachable.init0 (startup_reaches_loop c)
 
 theorem phaseOf_none (s : St) (ph : ShPhase) :
     phaseOf s none = some ph ↔ (s.runPc = .tail ∧ s.runSh = ph) := by
@@ -73,16 +83,14 @@ theorem mem_append_cancel_inv {ks : List ShPhase} {P : Prop}
 structure InvCtx (s : St) : Prop where
   tail : s.runPc = .tail → s.runSh ≠ .cancel → s.ctxDone = true
   killers : ∀ ph ∈ s.killers, ph ≠ .cancel → s.ctxDone = true
-  returned : s.runPc = .returned → s.ctxDone = true ∧ s.finishedClosed = true ∧ s.runSh = .done
+  returned : s.runPc = .returned → s.ctxDone = true ∧ s.finishedClosed = true
   finished : s.finishedClosed = true → s.runPc = .returned
-  disp : s.dispAlive = false → s.ctxDone = true
-  loopSh : s.runPc = .loop → s.runSh = .cancel
 
 theorem inv_ctx {c : Config} {s : St} (hr : Reachable c s) : InvCtx s := by
   refine reachable_induct InvCtx ?_ ?_ hr
-  · constructor <;> simp [init]
+  · constructor <;> simp [init0]
   · intro s s' l _ ih hs
-    obtain ⟨h1, h2, h3, h4, h5, h6⟩ := ih
+    obtain ⟨h1, h2, h3, h4⟩ := ih
     step_cases hs l
     all_goals constructor
     all_goals first
@@ -92,36 +100,85 @@ theorem inv_ctx {c : Config} {s : St} (hr : Reachable c s) : InvCtx s := by
       | exact mem_set_inv h2 (And.left (by assumption)) (by decide)
       | exact mem_append_cancel_inv h2
 
-/-! ### I2: the renderer's stop handshake -/
+/-! ### I2: the shape of the start-up -/
 
-/-- I2: the listen goroutine has stopped exactly when `renderer.stop`'s once has fired -/
-theorem inv_listen {c : Config} {s : St} (hr : Reachable c s) :
-    (s.listen = .stopped ↔ s.onceDone = true) := by
-  refine reachable_induct (fun s => s.listen = .stopped ↔ s.onceDone = true) ?_ ?_ hr
-  · simp [init]
+/-- the stages before `renderer.start()` -/
+def StartPc.beforeStart : StartPc → Bool
+  | .sigHandler | .newRenderer | .modeWrites | .startRenderer => true
+  | _ => false
+
+/-- the stages after the creation of the renderer -/
+def StartPc.afterNewRenderer : StartPc → Bool
+  | .sigHandler | .newRenderer => false
+  | _ => true
+
+/-- I2: while Run is starting up the loop has not begun, Run's own shutdown has not been entered,
+`finished` is open and no error has been computed; the loop has begun when Run is in it; before the
+loop begins there is neither a dispatcher nor a resize listener; before `renderer.start()` the
+listen goroutine does not exist; after the creation of the renderer it exists; a return that is not the
+end of a shutdown is the start-up failure of `initTerminal`; there is no dispatcher only when the
+context is cancelled or the loop has not begun -/
+structure InvStart (s : St) : Prop where
+  starting : ∀ p, s.runPc = .starting p →
+    s.el = .notStarted ∧ s.runSh = .cancel ∧ s.finishedClosed = false ∧ s.runErr = .nil ∧ s.runKill = false
+  loop : s.runPc = .loop → s.el ≠ .notStarted ∧ s.runSh = .cancel
+  notStarted : s.el = .notStarted → s.dispAlive = false ∧ s.resize = .absent
+  early : ∀ p, s.runPc = .starting p → p.beforeStart = true → s.listen = .notStarted
+  made : ∀ p, s.runPc = .starting p → p.afterNewRenderer = true → s.rendererMade = true
+  returned : s.runPc = .returned → s.runSh = .done ∨ (s.el = .notStarted ∧ s.runErr = .startup ∧ s.runSh = .cancel)
+  disp : s.dispAlive = false → s.ctxDone = true ∨ s.el = .notStarted
+
+theorem inv_start {c : Config} {s : St} (hr : Reachable c s) : InvStart s := by
+  refine reachable_induct InvStart ?_ ?_ hr
+  · constructor <;> simp [init0, StartPc.afterNewRenderer]
   · intro s s' l _ ih hs
+    obtain ⟨h1, h2, h3, h4, h5, h6, h7⟩ := ih
+    step_cases hs l
+    all_goals constructor
+    all_goals first
+      | assumption
+      | (simp_all [StartPc.beforeStart, StartPc.afterNewRenderer]; done)
+
+/-! ### I2': the renderer's listen goroutine -/
+
+/-- I2': the listen goroutine has been started (and possibly halted) only after the renderer was
+created (this replaces the `sync.Once` invariant of the old handshake: the state of the handshake
+IS the state of the listen goroutine now) -/
+theorem inv_listen {c : Config} {s : St} (hr : Reachable c s) :
+    (s.listen ≠ .notStarted → s.rendererMade = true) := by
+  refine reachable_induct (fun s => s.listen ≠ .notStarted → s.rendererMade = true) ?_ ?_ hr
+  · simp [init0]
+  · intro s s' l hrs ih hs
+    have S := inv_start hrs
     step_cases hs l
     all_goals first
       | assumption
       | (simp_all; done)
+      | exact fun _ => S.made _ (by assumption) rfl
 
 /-! ### I3: Run's tail and error -/
 
-/-- I3: Run is past its loop only after the loop exited; the error and the kill flag were
-computed from the loop's cause and the context as it was at that check -/
+/-- I3: Run is past its loop (in its tail, or returned) only after the loop exited - then the error
+and the kill flag were computed from the loop's cause and the context as it was at that check - or
+after a start-up failure / a panic of the start-up's user code, the loop never having begun -/
 def InvErr (s : St) : Prop :=
-  s.runPc ≠ .loop → ∃ c b, s.el = .exited c ∧ s.runErr = errOf c b ∧ s.runKill = (b || c != .quit)
+  (s.runPc = .tail ∨ s.runPc = .returned) →
+    (∃ c b, s.el = .exited c ∧ s.runErr = errOf c b ∧ s.runKill = (b || c != .quit)) ∨
+    (s.el = .notStarted ∧ (s.runErr = .killed ∨ s.runErr = .startup))
 
 theorem inv_err {c : Config} {s : St} (hr : Reachable c s) : InvErr s := by
   refine reachable_induct InvErr ?_ ?_ hr
-  · simp [init, InvErr]
-  · intro s s' l _ ih hs
+  · simp [init0, InvErr]
+  · intro s s' l hrs ih hs
+    have S := inv_start hrs
     unfold InvErr at ih ⊢
     step_cases hs l
     all_goals first
       | assumption
       | (simp_all; done)
-      | exact fun _ => ⟨_, _, by assumption, rfl, rfl⟩
+      | exact fun _ => Or.inl ⟨_, _, by assumption, rfl, rfl⟩
+      | exact fun _ => Or.inr ⟨(S.starting _ (by assumption)).1, by simp⟩
+      | exact fun _ => Or.inr ⟨(S.starting _ (And.left (by assumption))).1, by simp⟩
 
 /-! ### stability -/
 
@@ -144,49 +201,125 @@ theorem killers_length_mono {s s' : St} {l : Label} (hs : step s l = some s') :
     s.killers.length ≤ s'.killers.length := by
   step_cases hs l <;> simp
 
+/-- Run never goes back from its tail to its loop or its start-up -/
+theorem pastLoop_stable {s s' : St} {l : Label} (hs : step s l = some s')
+    (h : s.runPc = .tail ∨ s.runPc = .returned) : s'.runPc = .tail ∨ s'.runPc = .returned := by
+  rcases h with h | h <;> (step_cases hs l <;> simp_all)
+
 /-- termination, once begun, stays begun -/
 theorem terminating_stable {s s' : St} {l : Label} (hs : step s l = some s')
     (h : Terminating s) : Terminating s' := by
-  rcases h with h | ⟨c, h⟩ | h
+  rcases h with h | ⟨c, h⟩ | h | h
   · exact Or.inl (ctxDone_mono hs h)
   · exact Or.inr (Or.inl ⟨c, el_exited_stable hs h⟩)
-  · refine Or.inr (Or.inr ?_)
+  · refine Or.inr (Or.inr (Or.inl ?_))
     have := killers_length_mono hs
     intro h0
     rw [h0] at this
     cases hk : s.killers with
     | nil => exact h hk
     | cons a b => rw [hk] at this; simp at this
+  · exact Or.inr (Or.inr (Or.inr (pastLoop_stable hs h)))
 
 /-! ### progress labels and the rank -/
 
 /-- the lifecycle labels that move the termination forward (everything except message
-hand-overs to a running loop and the returns of API callers) -/
+hand-overs to a running loop and the returns of API callers); the internal steps of Run's start-up
+are among them: a Run that is starting up when termination begins goes on to its loop, which then
+sees the cancelled context -/
 def progressLabel : Label → Bool
   | .elCtxExit | .elCmdAbort | .runTail | .shCancel _ | .shHandlers _ | .shReader _ | .shWaitRead _
   | .shWaitReadTimeout _ | .shRenderer _ | .shRestore _ | .runReturn | .dispExit | .sigExit | .sigAbort
-  | .resizeExit | .initAbort | .readerMsgAbort | .readerErrAbort | .readerCanceled => true
+  | .resizeExit | .initAbort | .readerMsgAbort | .readerErrAbort | .readerCanceled
+  | .suSigHandler | .suNewRenderer | .suStartRenderer | .suSpawnInit | .suOpenReader | .suSpawnHandlers => true
   | _ => false
+
+/-- the returns of the user code Run calls during its start-up (the writer of the mode sequences,
+Init, the first View): the callbacks a Run that is still starting up has yet to make -/
+def startupReturn : Label → Bool
+  | .startWriterReturns | .initReturns | .firstViewReturns => true
+  | _ => false
+
+/-- the alphabet of the schedules that bring Run to its return: progress steps, and - during the
+start-up - the returns of the start-up's user code -/
+def scheduleLabel (l : Label) : Bool := progressLabel l || startupReturn l
 
 theorem progress_isLifecycle (l : Label) (h : progressLabel l = true) : l.isLifecycle = true := by
   cases l <;> first | rfl | cases h
 
-/-- progress steps start no user code -/
+/-- the progress steps after which Run is inside user code of the start-up -/
+def entersStartupCode : Label → Bool
+  | .suNewRenderer | .suStartRenderer | .suSpawnInit => true
+  | _ => false
+
+/-- no user code in progress on the loop or the listen goroutine (`NoCallback` without the clauses
+about Run's start-up) -/
+def LoopQuiet (s : St) : Prop :=
+  s.el ≠ .callback ∧ s.el ≠ .view ∧ s.listen ≠ .flushing
+
+theorem NoCallback.loopQuiet {s : St} (h : NoCallback s) : LoopQuiet s := ⟨h.1, h.2.1, h.2.2.1⟩
+
+/-- Run is inside user code of its start-up -/
+def InStartupCode (s : St) : Prop :=
+  s.runPc = .starting .modeWrites ∨ s.runPc = .starting .initCall ∨ s.runPc = .starting .firstView
+
+theorem noCallback_iff (s : St) : NoCallback s ↔ (LoopQuiet s ∧ ¬ InStartupCode s) := by
+  unfold NoCallback LoopQuiet InStartupCode
+  constructor
+  · rintro ⟨a, b, c, d, e, f⟩
+    exact ⟨⟨a, b, c⟩, fun h => by rcases h with h | h | h <;> contradiction⟩
+  · rintro ⟨⟨a, b, c⟩, h⟩
+    exact ⟨a, b, c, fun x => h (Or.inl x), fun x => h (Or.inr (Or.inl x)), fun x => h (Or.inr (Or.inr x))⟩
+
+/-- progress steps start no user code, except the three steps of the start-up after which Run is
+inside the writer of the mode sequences, Init, the first View -/
 theorem noCallback_progress {s s' : St} {l : Label} (hp : progressLabel l = true)
+    (hne : entersStartupCode l = false)
     (hs : step s l = some s') (h : NoCallback s) : NoCallback s' := by
   unfold NoCallback at h ⊢
   step_cases hs l
   all_goals first
     | (simp [progressLabel] at hp; done)
+    | (simp [entersStartupCode] at hne; done)
+    | (simp_all; done)
+
+/-- progress steps and the returns of the start-up's user code start no user code on the loop or
+the listen goroutine -/
+theorem loopQuiet_schedule {s s' : St} {l : Label} (hp : scheduleLabel l = true)
+    (hs : step s l = some s') (h : LoopQuiet s) : LoopQuiet s' := by
+  unfold LoopQuiet at h ⊢
+  step_cases hs l
+  all_goals first
+    | (simp [scheduleLabel, progressLabel, startupReturn] at hp; done)
+    | (simp_all; done)
+    | (refine ⟨h.1, h.2.1, ?_⟩; split <;> simp_all)
+
+/-- once Run is past its start-up, progress steps start no user code at all -/
+theorem noCallback_progress_past {s s' : St} {l : Label} (hp : progressLabel l = true)
+    (hs : step s l = some s') (hpast : ∀ p, s.runPc ≠ .starting p) (h : NoCallback s) :
+    NoCallback s' ∧ ∀ p, s'.runPc ≠ .starting p := by
+  unfold NoCallback at h ⊢
+  step_cases hs l
+  all_goals first
+    | (simp [progressLabel] at hp; done)
+    | (exact absurd (by assumption) (hpast _); done)
     | (simp_all; done)
 
 def phaseW : ShPhase → Nat
   | .cancel => 6 | .waitHandlers => 5 | .reader => 4 | .waitRead => 3 | .renderer => 2
   | .restore => 1 | .done => 0
 
-/-- remaining steps of Run itself: leave the loop, seven shutdown phases, return -/
+/-- what is left of the start-up: four per remaining stage (a stage spawns at most three
+goroutines, each of which adds one to the rank), on top of the eight of the loop -/
+def stageW : StartPc → Nat
+  | .sigHandler => 44 | .newRenderer => 40 | .modeWrites => 36 | .startRenderer => 32 | .initCall => 28
+  | .spawnInit => 24 | .firstView => 20 | .openReader => 16 | .spawnHandlers => 12
+
+/-- remaining steps of Run itself: the stages of the start-up, leave the loop, seven shutdown
+phases, return -/
 def runW (s : St) : Nat :=
   match s.runPc with
+  | .starting p => stageW p
   | .loop => 8
   | .tail => phaseW s.runSh + 1
   | .returned => 0
@@ -230,6 +363,11 @@ theorem killersW_set {ks : List ShPhase} {j : Nat} {x y : ShPhase} (h : ks[j]? =
       have := ih h
       simp only [killersW, List.set_cons_succ, List.map_cons, List.sum_cons] at this ⊢
       omega
+
+theorem elW_le_one (x : ElPc) : elW x ≤ 1 := by cases x <;> simp [elW]
+theorem sigW_le_one (x : SigPc) : sigW x ≤ 1 := by cases x <;> simp [sigW]
+theorem hW_le_one (x : HPc) : hW x ≤ 1 := by cases x <;> simp [hW]
+theorem readW_le_one (x : ReadPc) : readW x ≤ 1 := by cases x <;> simp [readW]
 
 theorem killersW_append (ks : List ShPhase) : killersW (ks ++ [.cancel]) = killersW ks + 6 := by
   simp [killersW, phaseW]
